@@ -305,7 +305,7 @@ def measurements(job):
     dom = [M1.t > 0, M2.t > 0]
 
     def curve(c, basis):
-        dc = DiffusionCurve.__new__(DiffusionCurve)
+        dc = build.bare(DiffusionCurve)
         dc.mixture, dc.membrane_name = mix, "stub"
         dc.feed_temperature = real("Tc%d" % c)
         xs = [real("cx%d_%d" % (c, i)) for i in range(2)]
